@@ -64,6 +64,9 @@ MUTANTS = [
     ("c05-drop-nonnote", "C05", ABS, "            else:\n                valid_positions += possible_positions\n                message_to_append.time = valid_positions[find_minimal_distance(message_original_time, valid_positions)]",
      "            else:\n                valid_positions += possible_positions\n                message_to_append.time = valid_positions[find_minimal_distance(message_original_time, valid_positions)]\n                if message_to_append.time == 0:\n                    message_to_append = None", {"KEEP"}),
     # ---- C06
+    ("c06-pair-index-before-append", "C06", ABS, "                    message_pairings[msg.channel].append([msg])\n                    open_messages[msg.channel][msg.note] = len(message_pairings[msg.channel]) - 1",
+     "                    open_messages[msg.channel][msg.note] = len(message_pairings[msg.channel]) - 1\n                    message_pairings[msg.channel].append([msg])", {"PAIR"}),
+    ("c06-completion-wrong-length", "C06", ABS, "time=pairing[0].time + standard_length))", "time=standard_length))", {"PAIR"}),
     ("c06-move-onset", "C06", ABS, "message_pairing[1].time += correction", "message_pairing[0].time -= correction", {"FR", "DUR"}),
     ("c06-off-by-one", "C06", ABS, "correction = best_fit - current_duration", "correction = best_fit - current_duration + 1", {"DUR"}),
     ("c06-ignore-filter", "C06", ABS, "best_fit = valid_durations[find_minimal_distance(current_duration, valid_durations)]", "best_fit = note_values[find_minimal_distance(current_duration, note_values)]", {"PROV", "DUR"}),
@@ -148,6 +151,12 @@ MUTANTS = [
     ("c16-track-shares", "C16", "scoda/elements/track.py", "[bar.copy() for bar in self.bars]", "[bar for bar in self.bars]", {"OWN1"}),
     ("c16-conversion-shares", "C16", ABS, "                message_to_add = msg.copy()\n                message_to_add.time = None", "                message_to_add = msg", {"OWN1"}),
     # ---- C17
+    ("c17-true-on-length-mismatch", "C17", ABS, "        if not len(self_pairings) == len(other_pairings):\n            return False", "        if not len(self_pairings) == len(other_pairings):\n            return True", {"RET", "LEN"}),
+    ("c17-type-test-inverted", "C17", ABS, "if self_msg.message_type != other_msg.message_type:", "if self_msg.message_type == other_msg.message_type:", {"RET"}),
+    ("c17-default-ignores-channel", "C17", ABS, "ignore_channel: bool = False,\n               ignore_time_signature", "ignore_channel: bool = True,\n               ignore_time_signature", {"RET"}),
+    ("c17-pair-not-popped", "C17", ABS, "                        index = open_messages[msg.channel].pop(msg.note)\n                        message_pairings[msg.channel][index].append(msg)",
+     "                        index = open_messages[msg.channel][msg.note]\n                        message_pairings[msg.channel][index].append(msg)", {"PAIR"}),
+    ("c17-interleave-cursor-one", "C17", ABS, "channel_cur_index = [0 for _ in", "channel_cur_index = [1 for _ in", {"INTERLEAVE"}),
     ("c17-wrong-flag", "C17", ABS, "if self_msg.velocity != other_msg.velocity and not ignore_velocity:", "if self_msg.velocity != other_msg.velocity and not ignore_channel:", {"EQ2", "EQ1"}),
     ("c17-no-duration", "C17", ABS, "if self_msg.note != other_msg.note or self_msg_value != other_msg_value:", "if self_msg.note != other_msg.note:", {"EQ1"}),
     ("c17-asymmetric", "C17", ABS, "other_msg_value = other_msgs[1].time - other_msg.time", "other_msg_value = other_msgs[1].time", {"EQ3"}),
@@ -400,6 +409,62 @@ def _job(job):
     return tag, kind, err, [(f.key, f.rule, f.construct[:90]) for f in c2.findings]
 
 
+def _independent_seeds(ctx: Ctx, base: set) -> dict:
+    """Replays the independently produced changes kept under /verif/seeded/ (patch.diff written by sub-agents that never
+    saw /verif) against in-memory copies of the *current* sources.  A patch that no longer applies is counted as skipped."""
+    import glob
+    import json
+    import os
+    import re
+    import shutil
+    import subprocess
+    import tempfile
+    from .report import VERIF
+    out = {"total": 0, "detected": [], "missed": [], "skipped_patch_does_not_apply": []}
+    for meta_path in sorted(glob.glob(os.path.join(VERIF, "seeded", "*", "meta.json"))):
+        try:
+            meta = json.load(open(meta_path))
+        except Exception:
+            continue
+        if meta.get("breaks_property") != ctx.prop:
+            continue
+        sid = meta.get("seed")
+        patch = os.path.join(os.path.dirname(meta_path), "patch.diff")
+        touched = re.findall(r"^\+\+\+ b/(\S+)", open(patch).read(), flags=re.M)
+        tmp = tempfile.mkdtemp(prefix="scoda_seed_")
+        try:
+            for t in touched:
+                if t not in ctx.p.sources:
+                    raise FileNotFoundError(t)
+                os.makedirs(os.path.dirname(os.path.join(tmp, t)), exist_ok=True)
+                with open(os.path.join(tmp, t), "w") as f:
+                    f.write(ctx.p.sources[t])
+            r = subprocess.run(["git", "apply", "--unsafe-paths", patch], cwd=tmp, capture_output=True, text=True,
+                               env={**os.environ, "GIT_CEILING_DIRECTORIES": tmp, "GIT_DIR": os.path.join(tmp, ".nogit")})
+            if r.returncode != 0:
+                out["skipped_patch_does_not_apply"].append(sid)
+                continue
+            var = ctx.p
+            for t in touched:
+                var = var.with_source(t, open(os.path.join(tmp, t)).read())
+        except Exception:
+            out["skipped_patch_does_not_apply"].append(sid)
+            continue
+        finally:
+            shutil.rmtree(tmp, ignore_errors=True)
+        out["total"] += 1
+        try:
+            c2, err = _run(var, ctx.prop)
+            newf = [f for f in c2.findings if f.key not in base]
+        except Exception as e:          # an aborting analysis is not a detection
+            newf, err = [], f"{type(e).__name__}: {e}"
+        if newf:
+            out["detected"].append({"seed": sid, "rules": sorted({f.rule for f in newf})})
+        else:
+            out["missed"].append({"seed": sid, "analysis_error": (err or "")[:120]})
+    return out
+
+
 def run(ctx: Ctx) -> None:
     global _BASE
     import multiprocessing as mp
@@ -455,7 +520,9 @@ def run(ctx: Ctx) -> None:
                 noisy.append({"rewrite": tag, "false_alarms": [f"{f[1]}: {f[2]}" for f in newf[:3]]})
             else:
                 silent.append(tag)
+    indep = _independent_seeds(ctx, base)
     ctx.extra["selfcheck"] = {
+        "independent_seeded_changes": indep,
         "seeded_breaks": {"total": len(detected) + len(missed) + len(errors), "detected": len(detected), "missed": missed,
                           "analysis_error_instead": errors, "skipped_anchor_missing": skipped, "detail": detected},
         "behaviour_preserving_rewrites": {"total": len(silent) + len(noisy), "silent": len(silent), "not_silent": noisy},
